@@ -17,7 +17,8 @@ RULE = ('cells = (filter form: one wavelet for both axes | ordered pair of disti
         '4-tuple, mode in zero/symmetric/reflect/periodization, H, W) over all 106 wavelets and '
         'sides 2..9,12,13,16 x 2,3,4,6,7,11,16; per cell impulse batch + dense inputs for analysis, '
         'one-hot coefficient batch + dense coefficients for synthesis; distinct by (cell, direction, '
-        'input kind); non-trivial when input not all-zero and at least one implementation returned')
+        'input kind); non-trivial when input not all-zero and at least one implementation returned'
+        '; N in {1,2,4}, C in 1..5 (incl. exactly 4, the number of sub-bands); filters as lists and as prepared tensors; equal-length sequences and in-place updated prepared kernels')
 ASSUMPTIONS = ['float64; tolerance 1e-11 * gain * max|x|',
                'the separable functional bank is itself anchored to pywt.dwt2/idwt2 in the same run']
 TIMEOUT = {'quick': 900, 'thorough': 3000}
